@@ -1203,6 +1203,10 @@ def main():
                 script_decoded = bits.script.decode_script(
                     script_bytes, witness=args.witness
                 )
+                if args.witness:
+                    # (stack items, remaining bytes): bytes are not JSON serializable
+                    stack_items, remaining = script_decoded
+                    script_decoded = [stack_items, remaining.hex()]
                 decoded.append(script_decoded)
             print(json.dumps(decoded))
             return
